@@ -14,4 +14,32 @@ func (ra *RequestAdaptor) reload()
 func (ra *RequestAdaptor) Init()
   flag frame=unchecked
   requires ra != nil && ra.spec != nil
+
+// ---- C03: a request body the adaptor compresses or decompresses before the proxy forwards it ----
+// A body without Content-Encoding is replaced by its gzip (buffered: the encoded bytes; streamed: the encoder
+// over the stream) and labelled gzip; an encoded body is left alone. A gzip-labelled body is replaced by the
+// decoded bytes (or the decoder over the stream) and the label is removed; anything else is left alone.
+axiom this-header-name-is-canonical: canon("Content-Encoding") == "Content-Encoding"
+pred reqLabel(r *httpprot.Request) := headerGet(ref(r.Request.Header), "Content-Encoding")
+pred reqLabelledOnly(r *httpprot.Request, v string) := (canon("Content-Encoding") in r.Request.Header) && len(r.Request.Header[canon("Content-Encoding")]) == 1 && r.Request.Header[canon("Content-Encoding")][0] == v
+pred reqUntouched(r *httpprot.Request, s0 int, p0 int) := ref(r.stream) == s0 && ref(r.payload) == p0
+
+func (ra *RequestAdaptor) processCompress(req *httpprot.Request) (res string)
+  flag allocates
+  flag frame=unchecked
+  requires req != nil && req.Request != nil && req.Request.Header != nil
+  modifies req.payload, req.stream, entries(req.Request.Header), rdRem, gzFed, gzClosed, limUnder
+  ensures an-encoded-body-is-left-alone: old(reqLabel(req)) != "" ==> res == "" && req.stream == old(req.stream) && req.payload == old(req.payload) && (forall k string :: ((k in req.Request.Header) <==> old(k in req.Request.Header)) && req.Request.Header[k] == old(req.Request.Header[k]))
+  ensures a-compressed-body-is-labelled-gzip: old(reqLabel(req)) == "" && res == "" ==> reqLabelledOnly(req, "gzip") && ((req.stream != nil) <==> old(req.stream != nil))
+  ensures a-streamed-body-is-never-refused: old(reqLabel(req)) == "" && old(req.stream) != nil ==> res == ""
+  ensures res == "" || res == resultCompressFailed
+
+func (ra *RequestAdaptor) processDecompress(req *httpprot.Request) (res string)
+  flag allocates
+  flag frame=unchecked
+  requires ra != nil && ra.spec != nil && req != nil && req.Request != nil && req.Request.Header != nil
+  modifies req.payload, req.stream, entries(req.Request.Header), rdRem, limUnder
+  ensures only-gzip-labelled-bodies-are-decoded: (ra.spec.Decompress != "gzip" || old(reqLabel(req)) != "gzip") ==> res == "" && req.stream == old(req.stream) && req.payload == old(req.payload) && (forall k string :: ((k in req.Request.Header) <==> old(k in req.Request.Header)) && req.Request.Header[k] == old(req.Request.Header[k]))
+  ensures a-decoded-body-loses-the-label: ra.spec.Decompress == "gzip" && old(reqLabel(req)) == "gzip" && res == "" ==> !(canon("Content-Encoding") in req.Request.Header) && ((req.stream != nil) <==> old(req.stream != nil))
+  ensures res == "" || res == resultDecompressFailed
 @*/
